@@ -1,6 +1,8 @@
 //! Conformance harness for property C09 (redirections), see /verif/DESIGN.md
 //! and spec/Redir.tla, spec/RedirAbs.tla, spec/Trace_Redir.tla.
+mod faulty;
 mod probe;
+mod runner;
 mod rnd;
 mod scen;
 
